@@ -649,7 +649,7 @@ class Array(metaclass=MetaArray):
         if hasattr(self._itemtype, "_dtype"):
             arr = self._buffer.to_nplike(
                 self._offset + self._data_offset, self._itemtype._dtype, cshape
-            ).transpose(self._order)
+            ).transpose(np.argsort(self._order))
             assert arr.strides == self._strides
             return arr
         else:
@@ -661,7 +661,7 @@ class Array(metaclass=MetaArray):
         if hasattr(self._itemtype, "_dtype"):
             arr = self._buffer.to_nparray(
                 self._offset + self._data_offset, self._itemtype._dtype, cshape
-            ).transpose(self._order)
+            ).transpose(np.argsort(self._order))
             assert arr.strides == self._strides
             return arr
         else:
